@@ -83,6 +83,10 @@ def run(F, R):
         # pointer with its two reserved low bits cleared (C12.B4 list-start)
         from .C12 import b4b_list_start
         guard(R, 'W8', 'list-start', lambda: b4b_list_start(F, RuleProxy(R, {'B4': 'W8'})))
+        # ... and to what the capability iterator yields: every capability it reads is yielded with the id / next / private-header
+        # fields of its own header word, the one with an invalid next pointer included (C12.B4 decode)
+        from .C12 import b4_decode
+        guard(R, 'W8', 'capability-decode', lambda: b4_decode(F, RuleProxy(R, {'B4': 'W8'})))
 
 
 # ------------------------------------------------------------------------------------------------ W3
